@@ -97,7 +97,18 @@ def _c16_viol(res):
     return v
 
 
+def _c18_viol(res):
+    v = []
+    for r in res["regen"]["verdicts"]:
+        if r["bad"]:
+            v.append(dict(stage="regen", id=r["id"], what=[list(b)[1:3] for b in r["bad"]][:4], kind="regen"))
+    if not res["regen"]["mc_regen_ok"]:
+        v.append(dict(stage="regen", id="MC_Regen", what=[["regen_model_violates_property"]], kind="mc"))
+    return v
+
+
 PROPS = {
+    "C18": dict(stages=["regen"], viol=_c18_viol),
     "C16": dict(stages=["pipeline"], viol=_c16_viol),
     "C06": dict(stages=["lex"], viol=_c06_viol),
     "C05": dict(stages=["tables", "resolve", "prec"], viol=_c05_viol),
